@@ -42,6 +42,7 @@ PROPS = {
     "C13": dict(fam=["renege", "core1"], mc=["renege"], inv=["Inv_C13"], step=["Step_C13"]),
     "C17": dict(fam=["trk"], mc=["trk", "dead"], inv=["Inv_C17"], step=["Step_C17"]),
     "C18": dict(fam=["dead"], mc=["dead"], inv=["Inv_C18"], step=["Step_C18"]),
+    "C20": dict(fam=["exact"], mc=["exact"], inv=[], step=["Step_C20"]),
     "C14": dict(fam=["stopcount", "core1", "tandem", "prio", "cls", "renege", "route", "preempt"],
                 mc=["core1", "stopcount"], inv=[], step=["Step_C14"]),
 }
@@ -85,7 +86,7 @@ def gen_one(job):
         t["scenario"] = sc
         return job, t, None
     except Unrepresentable as e:
-        return job, None, "unrepresentable: %s" % e
+        return job, {"scenario": sc, "family": fam, "seed": seed}, "unrepresentable: %s" % e
     except Exception:
         return job, None, "machinery: " + traceback.format_exc()
 
@@ -198,12 +199,15 @@ def run_check(prop, tier, seed):
         jobs.append((fam, seed * 100000 + j, T["max_events"], 0.1 if j % 5 == 0 else 0.0))
     res = generate_traces(jobs)
     traces, skipped = [], []
+    unrep = []
     for job, t, err in res:
         if err is not None:
             if err.startswith("machinery"):
                 log("MACHINERY-ERROR", err)
                 return 2
             skipped.append(err)
+            if t is not None and t["scenario"].get("exact"):
+                unrep.append((t, err))
         else:
             traces.append(t)
     log("generated %d traces (%d skipped) in %.1fs" % (len(traces), len(skipped), time.time() - t0))
@@ -238,6 +242,19 @@ def run_check(prop, tier, seed):
     for t, v in drift[:5]:
         log("DRIFT family=%s seed=%s %s" % (t["family"], t["seed"], json.dumps(v["drift"])[:300]))
     viol, kf = judge(prop, verdicts, traces, known)
+    if prop == "C20":
+        # an exact-mode run whose dates are not multiples of 10^-digits cannot even be written in ticks:
+        # the dates are not exact decimal sums.  Known (F10) when a Schedule is involved, a violation otherwise.
+        f10 = [f for f in known if f["id"] == "F10" and f["status"] == "open"]
+        for t, err in unrep:
+            sched = any(nd.get("kind") == "sched" for nd in t["scenario"]["nodes"])
+            if sched and f10:
+                kf.append((f10[0], "C20.dates-are-exact-decimal-sums(unrepresentable)", 0,
+                           {"family": t["family"], "seed": t["seed"]}))
+            else:
+                viol.append(("C20.dates-are-exact-decimal-sums(unrepresentable:%s)" % err[:80], 0,
+                             {"family": t["family"], "seed": t["seed"], "scenario": t["scenario"], "events": [],
+                              "outcome": "unrepresentable", "crash": {"type": "", "where": "", "msg": err}}, {}))
     # ---- evidence
     distinct = set()
     for t, v in pairs:
@@ -260,8 +277,12 @@ def run_check(prop, tier, seed):
     if not os.environ.get("CIWVERIF_NOEVIDENCE"):   # self-tests against scratch copies do not touch evidence/
         os.makedirs(os.path.join(VERIF, "evidence"), exist_ok=True)
         json.dump(ev, open(os.path.join(VERIF, "evidence", prop + ".json"), "w"), indent=1)
-    for f, clause, idx, t in kf[:10]:
-        log("KNOWN-FINDING: property=%s %s %s (clause %s, family %s seed %s)" %
+    seen_kf = set()
+    for f, clause, idx, t in kf:
+        if f["id"] in seen_kf:
+            continue
+        seen_kf.add(f["id"])
+        log("KNOWN-FINDING: property=%s %s %s (e.g. clause %s, family %s seed %s)" %
             (prop, f["id"], f["what"], clause, t["family"], t["seed"]))
     rc = 0
     seen = set()
